@@ -728,7 +728,7 @@ def class_view(repo: Repo, fi: FuncInfo, concrete, allow=None, max_depth: int = 
                     return None if (target.is_abstract or target.is_property) else target
             return super()._resolve(ctx, call)
 
-        def _expand(self, ctx, call, callee, taken, origin, stack):  # noqa: ANN001
+        def _expand_super(self, ctx, call, callee, taken, origin, stack):  # noqa: ANN001
             # super().m(...) runs m on the very same object: bind the callee's `self` to the caller's, not to the proxy
             f = call.func
             if isinstance(f, ast.Attribute) and isinstance(f.value, ast.Call) and isinstance(f.value.func, ast.Name) and f.value.func.id == "super" and ctx.params and not callee.is_staticmethod:
@@ -738,13 +738,182 @@ def class_view(repo: Repo, fi: FuncInfo, concrete, allow=None, max_depth: int = 
                 if hasattr(call, "_src"):
                     call2._src = call._src  # type: ignore[attr-defined]
                 call = call2
-            return super()._expand(ctx, call, callee, taken, origin, stack)
+            return Inliner._expand(self, ctx, call, callee, taken, origin, stack)
+
+        # ---- arguments: a helper call that is itself an argument (of another helper call, of a constructor, of a raise) is part
+        # of the pipeline as well: `self._message(self._find(evaluable))`, `raise AssertionError(self._message(...))`,
+        # `self._detector(mapping).judge(a, b)`.  It is given a name in front of the statement (everything evaluated before it
+        # is named too, in evaluation order, so that nothing moves across a state change) and then inlined like `x = helper()`.
+        def _expand(self, ctx, call, callee, taken, origin, stack):  # noqa: ANN001, F811
+            got = self._expand_super(ctx, call, callee, taken, origin, stack)
+            if got is None:
+                return None
+            prefix, body = got
+            if prefix:
+                prefix = self._block(ctx, prefix, taken, origin, stack)  # parameter bindings `p = helper(...)`
+            return prefix, body
+
+        def _target(self, ctx, e, stack):  # noqa: ANN001
+            """helper call with a multi-statement body that the statement forms would inline"""
+            if not isinstance(e, ast.Call) or len(stack) > self.max_depth:
+                return None
+            callee = self._resolve(ctx, e)
+            if callee is None or callee.fq in stack or isinstance(callee.node, ast.Lambda):
+                return None
+            body = strip_docstring(callee.node.body)
+            if len(body) == 1 and isinstance(body[0], ast.Return):
+                return None  # replaced in place by the expression inliner
+            return callee if self._eligible(ctx, callee, "assign") else None
+
+        def _hoist(self, ctx, s, taken, stack):  # noqa: ANN001
+            if isinstance(s, (ast.Expr, ast.Assign, ast.AnnAssign, ast.Return)):
+                fld, top_done = "value", True  # the statement forms handle a call that is the whole value
+            elif isinstance(s, ast.AugAssign):
+                fld, top_done = "value", False
+            elif isinstance(s, ast.If):
+                fld, top_done = "test", False
+            elif isinstance(s, ast.Raise):
+                fld, top_done = "exc", False
+            elif isinstance(s, (ast.For, ast.AsyncFor)):
+                fld, top_done = "iter", False
+            else:
+                return []
+            root = getattr(s, fld, None)
+            if not isinstance(root, ast.expr):
+                return []
+            order: list[ast.AST] = []
+            on_path: set[int] = set()
+
+            def scan(e) -> bool:  # noqa: ANN001
+                has = False
+                for ch in _strict_children(e):
+                    if scan(ch):
+                        has = True
+                if self._target(ctx, e, stack) is not None and not (e is root and top_done):
+                    order.append(e)
+                    has = True
+                if has:
+                    on_path.add(id(e))
+                return has
+
+            scan(root)
+            if not order:
+                return []
+            pre: list[ast.stmt] = []
+            left = [len(order)]
+            tids = {id(x) for x in order}
+
+            def name_it(e, base):  # noqa: ANN001
+                new = base if base not in taken else Inliner._fresh(base, "arg", taken)
+                taken.add(new)
+                st = ast.copy_location(ast.Assign(targets=[ast.copy_location(ast.Name(id=new, ctx=ast.Store()), e)], value=e), e)
+                if hasattr(s, "_src"):
+                    st._src = s._src  # type: ignore[attr-defined]
+                pre.append(st)
+                return ast.copy_location(ast.Name(id=new, ctx=ast.Load()), e)
+
+            def visit(e):  # noqa: ANN001
+                if id(e) not in on_path:
+                    if left[0] > 0 and not _trivial(e):
+                        return name_it(e, "value__before")
+                    return e
+                for ch in _strict_children(e):
+                    new = visit(ch)
+                    if new is not ch:
+                        _replace_child(e, ch, new)
+                if id(e) in tids:
+                    left[0] -= 1
+                    callee = self._target(ctx, e, stack)
+                    return name_it(e, f"{callee.name.strip('_') if callee is not None else 'call'}__result")
+                return e
+
+            new_root = visit(root)
+            if new_root is not root:
+                setattr(s, fld, new_root)
+            return pre
+
+        def _block(self, ctx, stmts, taken, origin, stack):  # noqa: ANN001
+            out = []
+            for s in stmts:
+                out += self._hoist(ctx, s, taken, stack)
+                out.append(s)
+            done = Inliner._block(self, ctx, out, taken, origin, stack)
+            # single-expression helpers substituted by the expression inliner may have brought further nested helper calls
+            again = []
+            changed = False
+            for s in done:
+                pre = self._hoist(ctx, s, taken, stack) if not getattr(s, "_c11_hoisted", False) else []
+                s._c11_hoisted = True  # type: ignore[attr-defined]
+                if pre:
+                    changed = True
+                    again += Inliner._block(self, ctx, pre, taken, origin, stack)
+                again.append(s)
+            return again if changed else done
 
     v = ClassInliner(repo, T, allow, max_depth).view(fi)
     v.qualname = f"{fi.qualname}~inl@{concrete.name}"
     v.cls = concrete
     cache[key] = v
     return v
+
+
+
+def _strict_children(e: ast.AST) -> list[ast.AST]:
+    """Sub-expressions of `e` that are evaluated unconditionally, in evaluation order."""
+    if isinstance(e, ast.Call):
+        out: list[ast.AST] = []
+        if isinstance(e.func, ast.Attribute):
+            out.append(e.func.value)
+        elif not isinstance(e.func, ast.Name):
+            out.append(e.func)
+        return out + list(e.args) + [k.value for k in e.keywords]
+    if isinstance(e, (ast.Attribute, ast.Starred, ast.NamedExpr, ast.FormattedValue)):
+        return [e.value]
+    if isinstance(e, ast.Subscript):
+        return [e.value, e.slice]
+    if isinstance(e, ast.BinOp):
+        return [e.left, e.right]
+    if isinstance(e, ast.UnaryOp):
+        return [e.operand]
+    if isinstance(e, ast.Compare):
+        return [e.left, e.comparators[0]]
+    if isinstance(e, ast.BoolOp):
+        return [e.values[0]]
+    if isinstance(e, ast.IfExp):
+        return [e.test]
+    if isinstance(e, (ast.Tuple, ast.List, ast.Set)):
+        return list(e.elts)
+    if isinstance(e, ast.Dict):
+        return [x for k, v in zip(e.keys, e.values) for x in (k, v) if x is not None]
+    if isinstance(e, ast.JoinedStr):
+        return list(e.values)
+    if isinstance(e, ast.Slice):
+        return [x for x in (e.lower, e.upper, e.step) if x is not None]
+    return []
+
+
+def _trivial(e: ast.AST) -> bool:
+    """Evaluating `e` reads no state that a call could change (local names and constants only)."""
+    return not any(isinstance(x, (ast.Attribute, ast.Subscript, ast.Call, ast.Await, ast.Yield, ast.YieldFrom, ast.NamedExpr, *COMPS)) for x in ast.walk(e))
+
+
+def _replace_child(parent_: ast.AST, old: ast.AST, new: ast.AST) -> None:
+    if isinstance(parent_, ast.Call) and isinstance(parent_.func, ast.Attribute) and parent_.func.value is old:
+        parent_.func.value = new
+        return
+    for f in parent_._fields:
+        v = getattr(parent_, f, None)
+        if v is old:
+            setattr(parent_, f, new)
+            return
+        if isinstance(v, list):
+            for i, x in enumerate(v):
+                if x is old:
+                    v[i] = new
+                    return
+                if isinstance(x, ast.keyword) and x.value is old:
+                    x.value = new
+                    return
 
 
 def path_conditions_nokill(fn_node: ast.AST) -> dict[int, list]:
